@@ -77,17 +77,25 @@ impl<T> SharedFd<T> {
         let inner = self.into_inner();
 
         async move {
+            #[cfg(feature = "verif")]
+            crate::verif::point(40);
             if !inner.waits.swap(true, Ordering::AcqRel) {
                 let mut inner = Some(inner);
                 poll_fn(move |cx| {
                     let i = inner.take().unwrap();
+                    #[cfg(feature = "verif")]
+                    crate::verif::point(41);
                     let this = match Shared::try_unwrap(i) {
                         Ok(fd) => return Poll::Ready(Some(fd.fd)),
                         Err(this) => this,
                     };
 
+                    #[cfg(feature = "verif")]
+                    crate::verif::point(42);
                     this.waker.register(cx.waker());
 
+                    #[cfg(feature = "verif")]
+                    crate::verif::point(43);
                     match Shared::try_unwrap(this) {
                         Ok(fd) => Poll::Ready(Some(fd.fd)),
                         Err(tt) => {
@@ -106,10 +114,17 @@ impl<T> SharedFd<T> {
 
 impl<T> Drop for SharedFd<T> {
     fn drop(&mut self) {
+        #[cfg(feature = "verif")]
+        crate::verif::point(44);
         // It's OK to wake multiple times.
         if Shared::strong_count(&self.0) == 2 && self.0.waits.load(Ordering::Acquire) {
+            #[cfg(feature = "verif")]
+            crate::verif::point(45);
             self.0.waker.wake()
         }
+        // (the reference itself is released after this body)
+        #[cfg(feature = "verif")]
+        crate::verif::point(46);
     }
 }
 
